@@ -144,7 +144,93 @@ pub fn run_c14(ctx: &Ctx) -> Report {
         }
     });
     rep.merge(r);
+    // (c) chained responses: every zero-column set's OK must report ITS OWN number of ended rows
+    let n = if ctx.miri { 2 } else { ctx.n(1500, 60_000) };
+    let r = par_cases(ctx, "C14", "chain", n, |rng, i, rep| {
+        let bin = rng.bool();
+        let nsets = rng.range(2, 6) as usize;
+        let cols1 = vec![simple_col("a", ColumnType::MYSQL_TYPE_LONG)];
+        let mut ops = Vec::new();
+        let mut want: Vec<Option<(u64, u64)>> = Vec::new(); // Some = OK expected with these counts, None = resultset
+        let mut shape = String::new();
+        for s in 0..nsets {
+            let last = s + 1 == nsets;
+            match rng.below(3) {
+                0 => {
+                    let k = rng.below(6);
+                    ops.push(QOp::Start(0));
+                    for _ in 0..k {
+                        ops.push(if rng.bool() { QOp::Row(vec![], RowForm::Owned) } else { QOp::EndRow });
+                    }
+                    ops.push(if last { QOp::Finish } else { QOp::FinishOne });
+                    want.push(Some((k, 0)));
+                    shape.push_str(&format!("Z{} ", k));
+                }
+                1 => {
+                    let k = rng.below(5);
+                    ops.push(QOp::Start(1));
+                    for r in 0..k {
+                        ops.push(QOp::Row(vec![Cell::val(V::I32(r as i32))], RowForm::Owned));
+                    }
+                    ops.push(if last { QOp::Finish } else { QOp::FinishOne });
+                    want.push(None);
+                    shape.push_str(&format!("R{} ", k));
+                }
+                _ => {
+                    let (a, b) = (pick_u64(rng), pick_u64(rng));
+                    ops.push(if last { QOp::Completed(a, b) } else { QOp::CompleteOne(a, b) });
+                    want.push(Some((a, b)));
+                    shape.push_str("C ");
+                }
+            }
+        }
+        let cmds = vec![Cmd::prepare(b"p"), if bin { Cmd::execute(1, &[], false) } else { Cmd::query(b"q") }, Cmd::ping()];
+        let scripts = vec![Script::PrepOk { id: 1, params: vec![], cols: vec![] }, Script::Q(QProg { colsets: vec![vec![], cols1.clone()], ops, on_err: OnErr::Drop })];
+        let obs = run_case(&Case::new(cmds, scripts));
+        rep.evaluations += 1;
+        if harness_panic(&obs, rep) {
+            return;
+        }
+        rep.counters.class(format!("chain {}", shape.split(' ').filter(|s| !s.is_empty()).map(|s| &s[..1]).collect::<Vec<_>>().join("")));
+        let d = || J::obj().set("mode", if bin { "binary" } else { "text" }).set("chain (Zk = zero-column set with k rows, Rk = 1-column set with k rows, C = completion)", shape.clone()).set("outcome", obs.outcome.describe());
+        if i == 0 {
+            rep.sample(d());
+        }
+        let dec = match decode_output(&obs) {
+            Ok(x) => x.2,
+            Err(e) => {
+                rep.violations.push(viol("C14", "C14 bad-framing".into(), e, d()));
+                return;
+            }
+        };
+        let Some(Resp::Parts(parts)) = dec.resps.get(3) else {
+            rep.violations.push(viol("C14", "C14 undecodable-response".into(), format!("chained response does not decode: {:?}", dec.stop), d()));
+            return;
+        };
+        if parts.len() != want.len() {
+            rep.violations.push(viol("C14", "C14 chain-length".into(), format!("{} parts decoded, {} written", parts.len(), want.len()), d()));
+            return;
+        }
+        for (k, (p, w)) in parts.iter().zip(want.iter()).enumerate() {
+            match (p, w) {
+                (Part::Ok(o), Some((a, b))) => {
+                    if (o.affected, o.last_id) != (*a, *b) {
+                        rep.violations.push(viol("C14", "C14 chained-count-differs".into(), format!("part {} of the chain: OK({}, {}) but the shim reported ({}, {})", k, o.affected, o.last_id, a, b), d()));
+                        return;
+                    }
+                    rep.counters.inc("chained_counts_compared");
+                }
+                (Part::Rows { .. }, None) => {}
+                _ => {
+                    rep.violations.push(viol("C14", "C14 chain-shape".into(), format!("part {} has the wrong kind", k), d()));
+                    return;
+                }
+            }
+        }
+    });
+    rep.merge(r);
     if !ctx.miri && ctx.only.is_none() {
+        rep.require("chained_counts_compared", 100);
         rep.require("ok_packets_compared", 100);
         rep.require("zero_column_counts_compared", 10);
     }
@@ -278,11 +364,21 @@ pub fn run_c09(ctx: &Ctx) -> Report {
         let rcols = gen_cols(rng, nr, big);
         let id = *rng.pick(&[0u32, 1, 1 << 31, u32::MAX, 0x0102_0304, 0xFFFF_FF00]);
         let id = if rng.bool() { id } else { rng.next() as u32 };
-        let cmds = vec![Cmd::prepare(b"p"), Cmd::query(b"q"), Cmd::ping()];
-        let scripts = vec![
+        // every third case re-announces the same statement id with different parameter/column lists
+        let reprepare = i % 3 == 2;
+        let (np2, nc2) = (rng.below(5) as usize, rng.below(5) as usize);
+        let params2 = gen_cols(rng, np2, false);
+        let pcols2 = gen_cols(rng, nc2, false);
+        let mut cmds = vec![Cmd::prepare(b"p"), Cmd::query(b"q"), Cmd::ping()];
+        let mut scripts = vec![
             Script::PrepOk { id, params: params.clone(), cols: pcols.clone() },
             Script::Q(QProg { colsets: vec![rcols.clone()], ops: vec![QOp::Start(0), QOp::Finish], on_err: OnErr::Drop }),
         ];
+        if reprepare {
+            cmds.push(Cmd::prepare(b"p again"));
+            cmds.push(Cmd::ping());
+            scripts.push(Script::PrepOk { id, params: params2.clone(), cols: pcols2.clone() });
+        }
         let obs = run_case(&Case::new(cmds, scripts));
         rep.evaluations += 1;
         if harness_panic(&obs, rep) {
@@ -322,7 +418,7 @@ pub fn run_c09(ctx: &Ctx) -> Report {
                 return;
             }
         };
-        if dec.stop.is_some() || dec.resps.len() < 5 {
+        if dec.stop.is_some() || dec.resps.len() < if reprepare { 7 } else { 5 } {
             rep.violations.push(viol("C09", "C09 undecodable-response".into(), format!("metadata response does not decode: {:?}", dec.stop), d()));
             return;
         }
@@ -344,6 +440,27 @@ pub fn run_c09(ctx: &Ctx) -> Report {
             other => {
                 rep.violations.push(viol("C09", "C09 prepare-reply-kind".into(), format!("PREPARE answered by {:?}", other).chars().take(200).collect(), d()));
                 return;
+            }
+        }
+        if reprepare {
+            match &dec.resps[5] {
+                Resp::PrepareOk { id: gid, ncols, nparams, params: gp, cols: gc, .. } => {
+                    if *gid != id || *ncols as usize != nc2 || *nparams as usize != np2 {
+                        rep.violations.push(viol("C09", "C09 reprepare-ok-header".into(), format!("second COM_STMT_PREPARE_OK for id {} says ({} columns, {} params), the shim declared ({} columns, {} params); the first PREPARE of this id had ({}, {})", id, ncols, nparams, nc2, np2, nc, np), d()));
+                        return;
+                    }
+                    for (what, g, w) in [("re-prepared parameter definition", gp, &params2), ("re-prepared column definition", gc, &pcols2)] {
+                        if let Err((k, e)) = cmp_cols(what, g, w) {
+                            rep.violations.push(viol("C09", format!("C09 reprepare-{}-differs", k), e, d()));
+                            return;
+                        }
+                    }
+                    rep.counters.inc("re_prepare_headers_compared");
+                }
+                other => {
+                    rep.violations.push(viol("C09", "C09 prepare-reply-kind".into(), format!("second PREPARE answered by {:?}", other).chars().take(200).collect(), d()));
+                    return;
+                }
             }
         }
         match &dec.resps[3] {
@@ -392,6 +509,7 @@ pub fn run_c09(ctx: &Ctx) -> Report {
     if !ctx.miri && ctx.only.is_none() {
         rep.require("definitions_compared", 1000);
         rep.require("prepare_ok_headers_compared", 100);
+        rep.require("re_prepare_headers_compared", 100);
         rep.require("definitions_cross_checked", 100);
     }
     rep
